@@ -163,6 +163,7 @@ def check(ctx):
             cases.append(("unary2", [("a", 0), ("op", o), ("pre", u), ("a", 1)], (u, o)))
     for _ in range(6000 if ctx.tier == "quick" else 100000):
         cases.append(("random", rand_toks(rnd, 4), None))
+    cases = C.uniq(cases, key=lambda c: text_of(c[1]))
     texts = [text_of(c[1]) for c in cases]
     lines = [G.enc(t) for t in texts]
     impl = C.run_impl(ctx, "tree", lines)
